@@ -608,6 +608,10 @@ func c11EmitRecv(c *Ctx, ks []byte, segs [][]byte, class string, want []c11RefPa
 func genC11(c *Ctx) {
 	r := c.R
 	big := c.Scale(1500, 20000)
+	// wall-clock scenarios of the Connection layer run in child processes
+	// while the other cases are generated; collected at the end
+	connCases := c11ConnCases(c)
+	defer c11ConnCollect(c, connCases)
 
 	// --- marshal: frame bytes for chosen nonce / payload
 	for i := 0; i < c.Scale(40, 400); i++ {
